@@ -28,9 +28,11 @@ RULE = ("one run = seeded callback registrations (address lists, level-3 filters
         "vectors)")
 REAL = ["xknx.core.TelegramQueue (registration, dispatch)", "xknx.telegram.AddressFilter", "xknx.devices.Devices/Switch",
         "xknx.cemi.CEMIHandler", "xknx.XKNX.start/stop"]
-STUB = ["KNXIPInterface (StubInterface, all sends succeed)", "loop (SimLoop)"]
+STUB = ["KNXIPInterface (StubInterface; 15 % of the outgoing group telegrams fail: CommunicationError or no L_Data.con)", "loop (SimLoop)"]
 ASSUMPTIONS = ["LONG (3-level) notation; filters restricted to level-3 patterns and internal globs, whose meaning is "
-               "unambiguous (free-format and 2-level patterns under LONG notation are C02's pure domain)",
+               "unambiguous (free-format and 2-level patterns under LONG notation are C02's pure domain); in the runs under the "
+               "FREE format whole-address patterns are added and registrations are judged on their explicit addresses and on "
+               "those patterns only (a 3-level pattern can not be applied there)",
                "a callback unregistered during a dispatch before its turn, or registered during a dispatch, is unjudged "
                "for that telegram; one that stays registered throughout must be called exactly once"]
 
@@ -43,6 +45,7 @@ LEVEL_PARTS = {
     "sub": ["*", "1", "2", "10", "1-2", "10-200", "200-", "-10", "1,255", "2,10-20"],
 }
 GLOBS = ["i-abc", "i-ab?", "i-a*", "i-*", "i-x*", "i-?b?"]
+FREE_PARTS = ["*", "2050", "2049-2060", "-3000", "4874-", "1,2050,36865", "2305", "60000-"]   # whole-address patterns (free format)
 
 
 # ---- independent matcher
@@ -69,6 +72,8 @@ def filter_match(pattern: str, addr) -> bool:
         return isinstance(addr, str) and _fn.fnmatchcase(addr, pattern)
     if isinstance(addr, str):
         return False
+    if "/" not in pattern:
+        return _part_match(pattern, addr)       # 1-level pattern: generated in free-format runs only (the whole address)
     a, b, c = pattern.split("/")
     return _part_match(a, addr >> 11) and _part_match(b, (addr >> 8) & 7) and _part_match(c, addr & 0xFF)
 
@@ -89,6 +94,7 @@ def reg_matches(reg: dict[str, Any], addr, outgoing: bool) -> bool:
 
 def gen(seed: int, tier: str) -> dict[str, Any]:
     rng = random.Random(seed)
+    free = rng.random() < 0.1
 
     def mkreg(i):
         shape = rng.choice(["all", "gas", "filters", "both", "empty_lists"])
@@ -103,6 +109,9 @@ def gen(seed: int, tier: str) -> dict[str, Any]:
                     filters.append(rng.choice(GLOBS))
                 else:
                     filters.append("/".join(rng.choice(LEVEL_PARTS[k]) for k in ("main", "middle", "sub")))
+            if free and rng.random() < 0.4:
+                # a pattern that does fit the free format, behind one that does not
+                filters.append(rng.choice(FREE_PARTS))
         if shape == "empty_lists":
             gas, filters = [], []
         act = None
@@ -133,9 +142,12 @@ def gen(seed: int, tier: str) -> dict[str, Any]:
             addr = rng.choice(GAS + INTERNALS) if rng.random() < 0.85 else rng.choice(GAS)
             ops.append({"t": round(t, 6), "op": "tg", "n": i + 1, "addr": addr,
                         "dir": rng.choice(["in", "in", "out"]), "via": rng.choice(["queue", "wire"])})
+            if ops[-1]["dir"] == "out" and not isinstance(addr, str) and rng.random() < 0.15:
+                # the send fails (interface down / confirmation missing): the telegram did not go out and is not processed
+                ops[-1]["fail"] = rng.choice(["comm_error", "never"])
     # in some runs the project uses the free group address format: matching a 3-level filter pattern raises there. Such a
     # registration is a misconfiguration - what is judged is that every *other* callback and the devices still get the telegram
-    return {"seed": seed, "tier": "S", "config": {"batch": 1, "free_format": rng.random() < 0.1}, "ops": ops}
+    return {"seed": seed, "tier": "S", "config": {"batch": 1, "free_format": free}, "ops": ops}
 
 
 def run(plan: dict[str, Any]) -> dict[str, Any]:
@@ -222,6 +234,19 @@ def run(plan: dict[str, Any]) -> dict[str, Any]:
         def process_group_write(self, telegram):
             dev_seen.append(tid(telegram))
 
+    failing = {o["n"]: o["fail"] for o in plan["ops"] if o["op"] == "tg" and o.get("fail")}
+
+    def pick(raw, i):
+        c = W.parse_cemi_ldata(bytes(raw))
+        n = int.from_bytes(c["tpdu"][2:4], "big") if c and len(c["tpdu"]) >= 4 else -1
+        if n in failing:
+            R.extra_faults["send_failed_" + failing[n]] += 1
+            return ({"lat": 0.002, "out": "comm_error"} if failing[n] == "comm_error"
+                    else {"lat": 0.002, "out": "ok", "con": "never"})
+        return None
+
+    stub.pick = pick
+
     async def main():
         xknx.telegram_queue.register_telegram_received_cb(sentinel, match_for_outgoing=True)
         for g in GAS:
@@ -273,19 +298,29 @@ def oracle(R, plan, dispatches, dev_seen):
     abstract: list[Any] = []
     seen_tids = [d["tid"] for d in dispatches]
     for o in tgs:
-        if seen_tids.count(o["n"]) != 1:
-            R.violate("C34.dispatch", f"telegram-dispatched-{seen_tids.count(o['n'])}x",
-                      f"telegram {o['n']} to {o['addr']} ({o['dir']}) reached the all-matching sentinel {seen_tids.count(o['n'])} times")
-        if dev_seen.count(o["n"]) != 1:
-            R.violate("C34.device-processing", f"device-processed-{dev_seen.count(o['n'])}x",
-                      f"telegram {o['n']} to {o['addr']} processed by its device {dev_seen.count(o['n'])} times")
+        want = 0 if o.get("fail") else 1        # a telegram whose send failed is not a processed telegram
+        if seen_tids.count(o["n"]) != want:
+            R.violate("C34.dispatch", f"telegram-dispatched-{seen_tids.count(o['n'])}x" + (":send-failed" if o.get("fail") else ""),
+                      f"telegram {o['n']} to {o['addr']} ({o['dir']}, send {o.get('fail') or 'ok'}) reached the all-matching "
+                      f"sentinel {seen_tids.count(o['n'])} times")
+        if dev_seen.count(o["n"]) != want:
+            R.violate("C34.device-processing", f"device-processed-{dev_seen.count(o['n'])}x" + (":send-failed" if o.get("fail") else ""),
+                      f"telegram {o['n']} to {o['addr']} (send {o.get('fail') or 'ok'}) processed by its device "
+                      f"{dev_seen.count(o['n'])} times")
     for d in dispatches:
         snap = d["snapshot"]
         exp = [r["id"] for r in snap if reg_matches(r, d["addr"], d["out"])]
         calls = d["calls"]
         if free and not isinstance(d["addr"], str):
             # registrations whose filter evaluation raises under this format are unjudged for group telegrams
-            odd = {r["id"] for r in snap if any(not f.startswith("i") for f in (r["filters"] or []))}
+            # - unless the telegram matches one of their explicit group addresses: a pattern that can not be applied
+            # matches nothing, it does not hide the callback's other subscriptions
+            odd = {r["id"] for r in snap if any("/" in f for f in (r["filters"] or []))
+                   and d["addr"] not in (r["gas"] or [])
+                   and not any("/" not in f and filter_match(f, d["addr"]) for f in (r["filters"] or []))}
+            exp = [r["id"] for r in snap if r["id"] not in odd and (r["outgoing"] or not d["out"]) and (
+                (r["gas"] is None and r["filters"] is None) or d["addr"] in (r["gas"] or [])
+                or any("/" not in f and filter_match(f, d["addr"]) for f in (r["filters"] or [])))]
             exp = [e for e in exp if e not in odd]
             calls = [c for c in calls if c not in odd]
             snap = [r for r in snap if r["id"] not in odd]
